@@ -867,3 +867,96 @@ pub fn c11(x: &str, widths: &[u32], base: &Cfg, ctx: &mut Ctx) {
         ctx.nontrivial();
     }
 }
+
+/// C11 over a dense range of widths: outs[k] is the output at widths[k] (ascending). Uses the
+/// structure of the three clauses: (a) for every W2, every W1 in [longest line of out(W2), W2) must
+/// give the identical text; (b) the line count never grows from one width to the next; (c) once
+/// every line fits, it keeps fitting.
+/// which kind of line the first difference between two outputs sits on (part of the signature, so
+/// that the width-dependent choices the optimiser makes today in routine/property headers and on
+/// lines with comments do not hide a new width dependence elsewhere)
+fn c11_line_class_x(x: &str, a: &str, b: &str) -> &'static str {
+    let c = c11_line_class(a, b);
+    if c != "routine-or-property-header" {
+        // a comment right after a case / variant-record label (`1: // c`)
+        let t = r::scan(x);
+        if (1..t.len()).any(|i| t[i].is_comment() && t[i - 1].kind == Kind::Op(r::Op::Colon)) {
+            return "comment-after-case-label";
+        }
+    }
+    c
+}
+
+fn c11_line_class(a: &str, b: &str) -> &'static str {
+    let (la, lb) = a
+        .lines()
+        .zip(b.lines())
+        .find(|(p, q)| p != q)
+        .unwrap_or(("", ""));
+    let both = format!("{la}\n{lb}").to_ascii_lowercase();
+    let has_word = |w: &str| {
+        both.split(|c: char| !c.is_ascii_alphanumeric() && c != '_').any(|t| t == w)
+    };
+    if ["procedure", "function", "constructor", "destructor", "operator", "property"].iter().any(|w| has_word(w)) {
+        "routine-or-property-header"
+    } else if both.contains("//") || both.contains('{') || both.contains("(*") {
+        "line-with-comment"
+    } else {
+        "plain-line"
+    }
+}
+
+pub fn c11_dense(x: &str, widths: &[u32], base: &Cfg, tag: Option<&'static str>, ctx: &mut Ctx) {
+    use std::hash::{Hash, Hasher};
+    let outs: Vec<String> = widths.iter().map(|w| ctx.fmt(&base.with(|c| c.wrap = *w), x)).collect();
+    if !x.is_ascii() || r::scan(&outs[0]).iter().any(|t| t.text(&outs[0]).contains('\n')) {
+        ctx.count("c11.skipped-non-ascii-or-multiline-token");
+        return;
+    }
+    let hashes: Vec<u64> = outs
+        .iter()
+        .map(|o| {
+            let mut h = std::collections::hash_map::DefaultHasher::new();
+            o.hash(&mut h);
+            h.finish()
+        })
+        .collect();
+    let maxl: Vec<usize> = outs.iter().map(|o| max_line(o)).collect();
+    let lines: Vec<usize> = outs.iter().map(|o| line_count(o)).collect();
+    let case = |i: usize, j: usize| json!({"oracle": "c11", "input": x, "cfg": base, "w1": widths[i], "w2": widths[j]});
+    let mut any_diff = false;
+    for j in 0..widths.len() {
+        if j > 0 && hashes[j] != hashes[j - 1] {
+            any_diff = true;
+        }
+        // (a)
+        for i in 0..j {
+            if maxl[j] <= widths[i] as usize && hashes[i] != hashes[j] {
+                let sig = format!("narrower-differs-though-wider-fits:{}", tag.unwrap_or_else(|| c11_line_class_x(x, &outs[i], &outs[j])));
+                ctx.fail("C11", &sig, format!("W1={} W2={}: the result for W2 has no line longer than {} yet W1 gives another text: {}", widths[i], widths[j], maxl[j], first_diff_line(&outs[i], &outs[j])), case(i, j));
+                return;
+            }
+        }
+        if j > 0 {
+            let i = j - 1;
+            // (b)
+            if lines[j] > lines[i] {
+                let over = maxl[i] > widths[i] as usize;
+                let sig = if over { "more-lines-when-wider:over-limit-at-narrower-width".to_string() } else { format!("more-lines-when-wider:{}", tag.unwrap_or_else(|| c11_line_class_x(x, &outs[i], &outs[j]))) };
+                ctx.fail("C11", &sig, format!("W1={}: {} lines, W2={}: {} lines; {}", widths[i], lines[i], widths[j], lines[j], first_diff_line(&outs[i], &outs[j])), case(i, j));
+                if !over {
+                    return;
+                }
+            }
+            // (c)
+            if maxl[i] <= widths[i] as usize && maxl[j] > widths[j] as usize {
+                let sig = format!("fits-narrow-but-not-wide:{}", tag.unwrap_or_else(|| c11_line_class_x(x, &outs[i], &outs[j])));
+                ctx.fail("C11", &sig, format!("W1={} fits, W2={} has a line of {}: {}", widths[i], widths[j], maxl[j], first_diff_line(&outs[i], &outs[j])), case(i, j));
+                return;
+            }
+        }
+    }
+    if any_diff {
+        ctx.nontrivial();
+    }
+}
